@@ -110,9 +110,12 @@ impl Fetcher {
     }
 
     /// Mark a fetch as failed for the [`NodeId`], using the provided `reason`.
+    ///
+    /// The result is ignored if the `node` is the local node, or if it
+    /// already has a result.
     pub fn fetch_failed(&mut self, node: NodeId, reason: impl ToString) {
         let reason = reason.to_string();
-        self.results.push(node, FetchResult::Failed { reason })
+        self.record(node, FetchResult::Failed { reason })
     }
 
     /// Mark a fetch as complete for the [`NodeId`], with the provided
@@ -123,12 +126,15 @@ impl Fetcher {
     /// via [`ControlFlow::Continue`].
     ///
     /// The caller decides whether they wish to continue the fetching process.
+    ///
+    /// The result is ignored if the `node` is the local node, or if it
+    /// already has a result.
     pub fn fetch_complete(
         &mut self,
         node: NodeId,
         result: FetchResult,
     ) -> ControlFlow<Success, Progress> {
-        self.results.push(node, result);
+        self.record(node, result);
         self.finished()
     }
 
@@ -168,6 +174,14 @@ impl Fetcher {
     /// Get the [`Target`] that the [`Fetcher`] is aiming to reach.
     pub fn target(&self) -> &Target {
         &self.target
+    }
+
+    /// Record the result of a node, ensuring that the local node is never
+    /// counted, and that every node is counted at most once.
+    fn record(&mut self, node: NodeId, result: FetchResult) {
+        if self.include_node(&node) {
+            self.results.push(node, result);
+        }
     }
 
     fn finished(&self) -> ControlFlow<Success, Progress> {
@@ -832,5 +846,31 @@ mod test {
         }
         let result = fetcher.finish();
         assert!(matches!(result, FetcherResult::TargetError(_)));
+    }
+
+    #[test]
+    fn local_node_and_repeated_results_are_not_counted() {
+        let local = arbitrary::gen::<NodeId>(0);
+        let replicas = ReplicationFactor::must_reach(2);
+        let candidates = arbitrary::set::<NodeId>(3..=3)
+            .into_iter()
+            .filter(|nid| *nid != local)
+            .collect::<Vec<_>>();
+        let bob = candidates[0];
+        let config = FetcherConfig::public(BTreeSet::new(), replicas, local)
+            .with_candidates(candidates.clone().into_iter().map(Candidate::new));
+        let mut fetcher = Fetcher::new(config).expect("fetcher should be constructed correctly");
+        let success = || FetchResult::Success {
+            updated: vec![],
+            namespaces: HashSet::new(),
+            clone: false,
+        };
+
+        assert!(fetcher.fetch_complete(local, success()).is_continue());
+        assert_eq!(fetcher.progress().succeeded(), 0);
+        assert!(fetcher.fetch_complete(bob, success()).is_continue());
+        assert!(fetcher.fetch_complete(bob, success()).is_continue());
+        assert_eq!(fetcher.progress().succeeded(), 1);
+        assert!(matches!(fetcher.finish(), FetcherResult::TargetError(_)));
     }
 }
